@@ -263,3 +263,149 @@ def fam_env_random(seed, shard, nshards, n):
         for env, tag in ((env_f, 'factory'), (env_h, 'hand')):
             opstr, exp = run_history(env, ops, lib_seed)
             yield f'env {spec} {opstr}', exp, f'envr-{data["reset_function"]["name"]}-{tag}'
+
+
+# ---------------------------------------------------------------------------------------------
+# gym layer
+# ---------------------------------------------------------------------------------------------
+
+
+def _gym_obs_str(rep_dict, space, kind):
+    from harness.corr_repr import flat
+
+    keys = list(rep_dict.keys())
+    inside = space.contains(rep_dict)
+    if kind == 'obs':
+        assert keys == ['grid', 'agent_id_grid', 'item'], keys
+        return f'G {flat(rep_dict["grid"])} | A {flat(rep_dict["agent_id_grid"])} | I {flat(rep_dict["item"])} | {"T" if inside else "F"}'
+    assert keys == ['grid', 'agent_id_grid', 'agent', 'item'], keys
+    return None
+
+
+def _state_rep_str(genv, rep_dict, space):
+    from harness.corr_repr import flat
+
+    s = genv.outer_env.inner_env.state
+    ag = rep_dict['agent']
+    ny, dy = 2 * s.agent.position.y - s.grid.shape.height + 1, s.grid.shape.height - 1
+    nx, dx = 2 * s.agent.position.x - s.grid.shape.width + 1, s.grid.shape.width - 1
+    assert ag[0] == ny / dy and ag[1] == nx / dx
+    onehot = ' '.join(f'{int(v)}/1' for v in ag[2:])
+    inside = space.contains(rep_dict)
+    return f'G {flat(rep_dict["grid"])} | A {flat(rep_dict["agent_id_grid"])} | P {ny}/{dy} {nx}/{dx} {onehot} | I {flat(rep_dict["item"])} | {"T" if inside else "F"}'
+
+
+def run_gym_history(genv, wrapper, ops, lib_seed):
+    """genv: the GymEnvironment; wrapper: what the user calls (gym.make result, the raw env, or a
+    GymStateWrapper).  ops: ('S', seed) | ('R',) | ('T', i) | ('W', i)"""
+    inner = genv.outer_env.inner_env
+    shared = SharedLog()
+    lib = LoggedRng(shared, lib_seed)
+    saved = rng_mod._gv_rng
+    rng_mod._gv_rng = lib
+    inner._rng = None
+    inner._state = None
+    inner._observation = None
+    gens = [lib]
+    outs = []
+    try:
+        for op in ops:
+            try:
+                if op[0] == 'S':
+                    g = LoggedRng(shared, op[1])
+                    inner.set_seed(op[1])
+                    inner._rng = g
+                    gens.append(g)
+                    outs.append('ok')
+                elif op[0] == 'R':
+                    o = wrapper.reset()
+                    if isinstance(o, tuple):
+                        o = o[0]
+                    outs.append(_gym_obs_str(o, genv.observation_space, 'obs'))
+                elif op[0] == 'V':
+                    o = wrapper.reset()
+                    outs.append(_state_rep_str(genv, o, wrapper.observation_space))
+                elif op[0] == 'T':
+                    s = inner._state
+                    res = wrapper.step(op[1])
+                    o, r, done, info = res[0], res[1], res[2], res[-1]
+                    a = inner.action_space.int_to_action(op[1])
+                    parts = reward_parts(inner, s, a, inner._state)
+                    toks = [f'I{envspec.sc(p)}' for p in parts]
+                    if r != sum(parts) or info != {}:
+                        toks.append('SUM-MISMATCH')
+                    outs.append(_gym_obs_str(o, genv.observation_space, 'obs') + ' # ' + ' '.join(toks) + ' ' + ('T' if done else 'F'))
+                elif op[0] == 'W':
+                    s = inner._state
+                    o, r, done, info = wrapper.step(op[1])
+                    a = inner.action_space.int_to_action(op[1])
+                    parts = reward_parts(inner, s, a, inner._state)
+                    toks = [f'I{envspec.sc(p)}' for p in parts]
+                    if r != sum(parts) or list(info.keys()) != ['observation']:
+                        toks.append('SUM-MISMATCH')
+                    outs.append(_state_rep_str(genv, o, wrapper.observation_space) + ' # ' + ' '.join(toks) + ' ' + ('T' if done else 'F') + ' # ' + _gym_obs_str(info['observation'], genv.observation_space, 'obs'))
+            except Exception as e:
+                outs.append(enc_exc(e))
+    finally:
+        rng_mod._gv_rng = saved
+    toks = []
+    gi = 0
+    for op in ops:
+        if op[0] == 'S':
+            gi += 1
+            ans = gens[gi].answers
+            toks.append(f'S {len(ans)} ' + ' '.join(map(str, ans)) if ans else 'S 0')
+        elif op[0] in ('T', 'W'):
+            toks.append(f'{op[0]} {op[1]}')
+        else:
+            toks.append(op[0])
+    lib_ans = gens[0].answers
+    head = f'{len(lib_ans)} ' + ' '.join(map(str, lib_ans)) if lib_ans else '0'
+    return f'{head} {len(ops)} ' + ' '.join(toks), ' ; '.join(outs)
+
+
+def fam_gym_shipped(seed, shard, nshards, n):
+    """every registered gym id (gym.make) and every shipped file wrapped directly, x representation
+    names, x random action-index histories (including out-of-range indices)"""
+    import gym
+    from gym_gridverse.gym import STRING_TO_YAML_FILE, GymEnvironment, GymStateWrapper, outer_env_factory
+
+    rng = random.Random(f'gym-{seed}-{shard}')
+    ids = sorted(STRING_TO_YAML_FILE.items())
+    per = max(1, n // max(1, len(ids))) if n else 1
+    for i, (gid, fname) in enumerate(ids):
+        if i % nshards != shard:
+            continue
+        path = os.path.join(gvenv.REPO, 'gym_gridverse', 'registered_envs', fname)
+        data = load(path)
+        spec = envspec.env_tokens(data)
+        for k in range(per):
+            enc = rng.choice(['default', 'no-overlap', 'compact'])
+            mode = rng.choice(['make', 'direct', 'state'])
+            if mode == 'make':
+                wrapper = gym.make(gid, disable_env_checker=True)
+                genv = wrapper.unwrapped
+            else:
+                genv = GymEnvironment(outer_env_factory(path))
+                wrapper = genv
+            genv.set_observation_representation(enc)
+            with_state = False
+            can_state = genv.outer_env.inner_env.state_space.can_be_represented
+            if mode == 'state' and can_state:
+                genv.set_state_representation(enc)
+                wrapper = GymStateWrapper(genv)
+                with_state = True
+            nact = genv.action_space.n
+            ops = []
+            if rng.random() < 0.85:
+                ops.append(('S', rng.randrange(2**31)))
+            ops.append(('V' if with_state else 'R',))
+            for _ in range(rng.randint(3, 25)):
+                r = rng.random()
+                idx = rng.randrange(nact) if r < 0.92 else rng.choice([nact, -1, nact + 3, -nact - 1])
+                if r > 0.97:
+                    ops.append(('V' if with_state else 'R',))
+                else:
+                    ops.append(('W' if with_state else 'T', idx))
+            opstr, exp = run_gym_history(genv, wrapper, ops, rng.randrange(2**31))
+            yield f'gym {spec} {enc} {int(with_state)} {opstr}', exp, f'gym-{mode}-{enc}'
